@@ -156,8 +156,12 @@ pub fn run(seed: u64, count: usize, _thorough: bool, out: &mut Out) {
                     ("label_asym_id", t)
                 }
                 _ => {
+                    // the same atom in every model (the models have to keep corresponding)
                     let t = (*rng.pick(&["1", "2.5", "12"])).to_string();
-                    nd.rows[ri].name = t.clone();
+                    let key = d.rows[ri].clone();
+                    for r in nd.rows.iter_mut().filter(|r| r.name == key.name && r.comp == key.comp && r.lasym == key.lasym && r.aseq == key.aseq && r.lseq == key.lseq && r.ins == key.ins && r.alt == key.alt) {
+                        r.name = t.clone();
+                    }
                     ("label_atom_id", t)
                 }
             };
@@ -180,8 +184,17 @@ pub fn run(seed: u64, count: usize, _thorough: bool, out: &mut Out) {
             let ri = rng.below(d.rows.len());
             let mut nd = d.clone();
             let (t, tok) = *rng.pick(&[("O5'A", "'O5'A'"), ("N\"1", "\"N\"1\""), ("C'", "'C''")]);
-            nd.rows[ri].name = t.to_string();
-            nd.force.push((ri, "label_atom_id".into(), tok.to_string()));
+            let key = d.rows[ri].clone();
+            let same: Vec<usize> = (0..nd.rows.len())
+                .filter(|k| {
+                    let r = &d.rows[*k];
+                    r.name == key.name && r.comp == key.comp && r.lasym == key.lasym && r.aseq == key.aseq && r.lseq == key.lseq && r.ins == key.ins && r.alt == key.alt
+                })
+                .collect();
+            for k in same {
+                nd.rows[k].name = t.to_string();
+                nd.force.push((k, "label_atom_id".into(), tok.to_string()));
+            }
             let text = cifgen::render(&mut rng, &nd, Spelling::Any, false);
             valid_case(out, &nd, &text, "quote-inside", &[2]);
         }
